@@ -86,10 +86,11 @@ type gcSub struct {
 }
 
 type gcPublisher struct {
-	id    int
-	topic string
-	phase int
-	msgs  []*message.Message
+	id      int
+	topic   string
+	phase   int
+	msgs    []*message.Message
+	batches []int // sizes of the consecutive Publish calls (variadic batches)
 }
 
 type gcWorld struct {
@@ -157,6 +158,14 @@ func gcGenerate(r *Run, o gcOpts) *gcWorld {
 			}
 			pb.msgs = append(pb.msgs, m)
 		}
+		for left := n; left > 0; {
+			b := 1 + t.Skewed(3)
+			if b > left {
+				b = left
+			}
+			pb.batches = append(pb.batches, b)
+			left -= b
+		}
 		w.pubs = append(w.pubs, pb)
 	}
 	nSubs := t.Skewed(5)
@@ -210,7 +219,7 @@ func gcGenerate(r *Run, o gcOpts) *gcWorld {
 	}
 	r.Describe("GoChannel{buffer:%d persistent:%v blocking:%v} topics=%d", w.cfg.OutputChannelBuffer, w.cfg.Persistent, w.cfg.BlockPublishUntilSubscriberAck, nTopics)
 	for _, pb := range w.pubs {
-		r.Describe("publisher %d -> %s: %d messages (phase %d)", pb.id, pb.topic, len(pb.msgs), pb.phase)
+		r.Describe("publisher %d -> %s: %d messages in Publish calls of sizes %v (phase %d)", pb.id, pb.topic, len(pb.msgs), pb.batches, pb.phase)
 	}
 	for _, sb := range w.subs {
 		var pl []string
@@ -240,21 +249,38 @@ func (w *gcWorld) subscribe(s *gcSub) bool {
 }
 
 func (w *gcWorld) publishAll(pb *gcPublisher) {
-	for i, m := range pb.msgs {
-		rec := &gcPubRec{pub: pb.id, idx: i, uuid: m.UUID, topic: pb.topic, orig: m, snap: m.Copy(), nestedBy: -1}
-		w.recs = append(w.recs, rec)
-		rec.invEv = w.tick()
-		w.r.Logf("pub %d Publish(%s) invoked", pb.id, m.UUID)
-		pv, pan := Call(func() { rec.err = w.ps.Publish(pb.topic, m) })
-		rec.retEv = w.tick()
-		rec.returned = true
-		if pan {
-			rec.panicked = pv
-			w.r.Fail(w.o.prop+".PANIC", "Publish panicked", "Publish(%s) panicked: %v", m.UUID, pv)
+	i := 0
+	for _, size := range pb.batches {
+		batch := pb.msgs[i : i+size]
+		var recs []*gcPubRec
+		var ids []string
+		for k, m := range batch {
+			rec := &gcPubRec{pub: pb.id, idx: i + k, uuid: m.UUID, topic: pb.topic, orig: m, snap: m.Copy(), nestedBy: -1}
+			w.recs = append(w.recs, rec)
+			recs = append(recs, rec)
+			ids = append(ids, m.UUID)
 		}
-		w.r.Logf("pub %d Publish(%s) returned err=%v", pb.id, m.UUID, rec.err)
-		// the caller owns the original again: edit it
-		m.Metadata.Set("post-publish-edit", "x")
+		i += size
+		inv := w.tick()
+		for _, rec := range recs {
+			rec.invEv = inv
+		}
+		w.r.Logf("pub %d Publish(%v) invoked", pb.id, ids)
+		var err error
+		pv, pan := Call(func() { err = w.ps.Publish(pb.topic, batch...) })
+		ret := w.tick()
+		for _, rec := range recs {
+			rec.retEv, rec.returned, rec.err = ret, true, err
+		}
+		if pan {
+			recs[0].panicked = pv
+			w.r.Fail(w.o.prop+".PANIC", "Publish panicked", "Publish(%v) panicked: %v", ids, pv)
+		}
+		w.r.Logf("pub %d Publish(%v) returned err=%v", pb.id, ids, err)
+		// the caller owns the originals again: edit them
+		for _, m := range batch {
+			m.Metadata.Set("post-publish-edit", "x")
+		}
 	}
 }
 
